@@ -27,6 +27,17 @@ cd $X
 if ! CARGO_NET_OFFLINE=true cargo build --release --offline >build.log 2>&1; then echo "BUILD FAILED"; grep -E "^error" -A8 build.log | head -30; git -C $R checkout -- .; exit 2; fi
 for id in "$@"; do
   out=$(VERIF_DIR=$O ./target/release/sim check "$id" --tier quick 2>&1); rc=$?
-  echo "[$id] rc=$rc"; echo "$out" | grep -a -E "scenario=|^VIOLATION|KNOWN|HARNESS|HANG|^runs=" | cut -c1-300
+  case "$id" in C18|C19|C20)
+    # second engine (layers under real threads, Miri), on a private copy as well
+    M=/tmp/eval-miri-$S; mkdir -p $M
+    rm -rf $E/miri && git -C /verif archive HEAD miri | tar -x -C $E
+    rsync -a --delete --exclude target $E/miri/ $M/
+    sed -i "s#/repo/crates#$R/crates#g; s#\.\./sim/vendor/governor#/verif/sim/vendor/governor#" $M/Cargo.toml
+    out2=$(VERIF_DIR=$O python3 $M/run.py check "$id" quick 2>&1); rc2=$?
+    out="$out
+$out2"
+    if [ $rc -ne 1 ] && [ $rc2 -ne 0 ]; then rc=$rc2; fi ;;
+  esac
+  echo "[$id] rc=$rc"; echo "$out" | grep -a -E "scenario=|^VIOLATION|KNOWN|HARNESS|HANG|^runs=|threads-engine" | cut -c1-300
 done
 git -C $R checkout -- .
